@@ -176,6 +176,9 @@ var c18Stmts = []c18Stmt{
 	{"multi-delete-unconditional-first", "DELETE FROM t; DELETE FROM t WHERE id = 10", 0, true, false, nil},
 	{"multi-delete-unconditional-last", "DELETE FROM t WHERE a > 4; DELETE FROM t", 0, true, false, nil},
 	{"update-no-where", "UPDATE t SET b = ?", 1, true, false, nil},
+	// a batch with an UPDATE that has no WHERE: refused, or recorded completely
+	{"may-reject-multi-update-unconditional-last", "UPDATE t SET a = 5 WHERE id = 10; UPDATE t SET b = 6", 0, true, false, nil},
+	{"may-reject-multi-update-unconditional-first", "UPDATE t SET b = 6; UPDATE t SET a = 5 WHERE id = 10", 0, true, false, nil},
 	// column b nullable, NULL or a value in each row (see c18WantNull)
 	{"null-update-set-literal", "UPDATE t SET b = NULL WHERE id = ?", 1, true, false, nil},
 	{"null-update-set-arg", "UPDATE t SET b = ?, a = ? WHERE id = ?", 3, true, false, nil},
@@ -368,6 +371,11 @@ func c18Run(checkImages, checkLocks bool) {
 	}
 	if err != nil && w.d.lastKind == "insert" && strings.Contains(err.Error(), "1062") {
 		// the business statement itself failed in the database (duplicate key): nothing to record
+		return
+	}
+	if err != nil && strings.HasPrefix(st.name, "may-reject-") && len(w.d.changedBefore) == 0 && len(w.d.changedAfter) == 0 {
+		// refused before anything was written: as good as recording it
+		vrt.Reach("c18/refused")
 		return
 	}
 	if checkImages {
